@@ -382,7 +382,7 @@ def run(rep):
             continue
         conf, pats = blocks[rng.randrange(len(blocks))]
         cases.append(ec.Case(conf, pats, m, rng.choice(['new', 'cur']), rng.choice(['1.host', '2.host:2,S', '3.host:2,FRS', '4.host:2,abcXYZ']), '1'))
-    ec.run_cases(h2, env2, cases, want_spec=False)
+    ec.run_cases(h2, env2, cases, want_spec=False, denv=dict(os.environ, LC_ALL='C'))
     ebad, efault, enoeval = [], 0, 0
     tri = {}
     for c in cases:
